@@ -16,8 +16,8 @@ func configs() []cfg {
 		{id: "C02", pkg: "checks/c02", level: "model_checking", workers: 16},
 		{id: "C03", pkg: "checks/c03", level: "model_checking", workers: 16, thoroBud: 30 * time.Minute},
 		{id: "C04", pkg: "checks/c04", level: "model_checking", workers: 8, instr: rtmpI, race: true},
-		{id: "C05", pkg: "checks/c05", level: "exploration", workers: 16, thoroBud: 30 * time.Minute},
-		{id: "C06", pkg: "checks/c06", level: "exploration", workers: 16, thoroBud: 30 * time.Minute},
+		{id: "C05", pkg: "checks/c05", level: "exploration", workers: 16, quickBud: 150 * time.Second, thoroBud: 40 * time.Minute},
+		{id: "C06", pkg: "checks/c06", level: "exploration", workers: 16, thoroBud: 40 * time.Minute},
 		{id: "C07", pkg: "checks/c07", level: "exploration", workers: 16, quickBud: 150 * time.Second, thoroBud: 25 * time.Minute,
 			instr: []instr.PkgRules{
 				{Pkg: "websocket", SyncSwap: true, ChanLock: []string{"mu"}, Export: "websocket/verif_export.go", Ticks: true},
@@ -25,13 +25,13 @@ func configs() []cfg {
 				{Pkg: "json", Ticks: true}, {Pkg: "https/jose", Ticks: true}, {Pkg: "https/jose/cipher", Ticks: true}, {Pkg: "https/crypto/ocsp", Ticks: true},
 				{Pkg: "errors", Ticks: true},
 			}},
-		{id: "C08", pkg: "checks/c08", level: "fault_enumeration", workers: 16},
+		{id: "C08", pkg: "checks/c08", level: "fault_enumeration", workers: 16, quickBud: 150 * time.Second, thoroBud: 25 * time.Minute},
 		{id: "C09", pkg: "checks/c09", level: "exploration", workers: 16, thoroBud: 25 * time.Minute},
 		{id: "C10", pkg: "checks/c10", level: "exploration", workers: 16},
 		{id: "C11", pkg: "checks/c11", level: "exploration", workers: 16},
 		{id: "C12", pkg: "checks/c12", level: "exploration", workers: 16},
 		{id: "C13", pkg: "checks/c13", level: "model_checking", workers: 16, instr: wsI},
-		{id: "C14", pkg: "checks/c14", level: "model_checking", workers: 16, thoroBud: 45 * time.Minute,
+		{id: "C14", pkg: "checks/c14", level: "model_checking", workers: 16, thoroBud: 60 * time.Minute,
 			// the reader's own replies (pong, close echo) carry a 1 s wall-clock write deadline: the clock is frozen (R2) and timers never fire (R2b)
 			instr: []instr.PkgRules{{Pkg: "websocket", SyncSwap: true, ChanLock: []string{"mu"}, Time: true, Timers: true, Export: "websocket/verif_export.go"}}},
 		{id: "C15", pkg: "checks/c15", level: "model_checking", workers: 16, race: true,
